@@ -270,6 +270,14 @@ def diagnose_stall(sim):
                  ("server", s._cryptos[tls.Epoch.ONE_RTT].send, c._cryptos[tls.Epoch.ONE_RTT].recv))
     except Exception:
         return None
+    # a sender whose current path never got validated stays limited to 3x what it receives
+    for ep in (sim.server, sim.client):
+        try:
+            path = ep.conn._network_paths[0]
+            if not path.is_validated and ep.handshake_complete:
+                return "path-never-validated:%s:challenge-%s" % (ep.name, "sent" if path.local_challenge_sent else "not-sent")
+        except Exception:
+            pass
     for side, snd, rcv in pairs:
         if not snd.secret or not rcv.secret or snd.secret == rcv.secret:
             continue
@@ -281,14 +289,6 @@ def diagnose_stall(sim):
                 if cur == b:
                     return "key-phase-desync:%s-ahead-by-%d" % ("updater" if who == side else "receiver", n)
         return "key-phase-desync:unrelated-secrets"
-    # a sender whose current path never got validated stays limited to 3x what it receives
-    for ep in (sim.server, sim.client):
-        try:
-            path = ep.conn._network_paths[0]
-            if not path.is_validated and ep.handshake_complete:
-                return "path-never-validated:%s:challenge-%s" % (ep.name, "sent" if path.local_challenge_sent else "not-sent")
-        except Exception:
-            pass
     return None
 
 
